@@ -218,6 +218,12 @@ def judge(case, lines, verdicts, spec_map):
         elif p['k'] == 'N':
             if body[0] == 'ok' and body[1] != '0' and p.get('after_flush'):
                 finds.append(('flag', pi, 'need_flush_meta() is true right after a successful flush_meta'))
+            dirty = [int(x) for tkx in body[2:] if tkx.startswith('dirty=') for x in tkx[6:].split(',')]
+            prev_ok = ri >= 2 and res[ri - 2].split()[2:3] == ['ok']
+            if body[0] == 'ok' and p.get('after_flush') and prev_ok and any(dirty):
+                finds.append(('flag', pi, 'right after a successful flush_meta metadata is still dirty in ram (dirty L2 slices, refblock slices, L1 blocks, reftable blocks = %s)' % dirty))
+            elif body[0] == 'ok' and body[1] == '0' and any(dirty):
+                finds.append(('flag', pi, 'need_flush_meta() is false while metadata is dirty in ram (%s)' % dirty))
         else:
             if body[0] != 'ok':
                 finds.append(('api', pi, '%s -> %s' % (hist.op_line(p['op']), ' '.join(body[:3]))))
